@@ -98,6 +98,13 @@ def cases(ctx):
     for ln in (4, 64):
         if mine():
             yield {"kind": "threaded", "threads": 4, "length": ln, "rounds": 1500 if ctx.quick else 20000}
+    # payloads that begin with (or consist of) bytes equal to a message type byte / other small values: the header of a subroutine
+    # is version-major, version-minor, app id (2 bytes)
+    for b0 in range(0, 8):
+        for hdr in ([b0, b0, b0 * 257], [b0, 0, 0], [b0, 255, 65535]):
+            if mine():
+                yield {"kind": "subroutine", "flavour": "vanilla", "version": [hdr[0], hdr[1]], "app_id": hdr[2],
+                       "instrs": [] if b0 % 2 else [["set", [["R", 2], b0 * 0x01010101]]]}
     for _ in range(ctx.n(200, 50000)):
         flav = rng.choice(["vanilla", "nv", "reids"])
         names = sorted(isa.TABLE[flav])
